@@ -409,6 +409,30 @@ func (r *Roles) resolveConnFields(pkg *types.Package) {
 		}
 	}
 	// time.Duration fields: told apart by use (timeout feeds SetReadDeadline; ping interval feeds time.After in a loop)
+	var pingFallback *types.Var
+	var writesControl func(fn *ssa.Function) bool
+	writesControl = func(fn *ssa.Function) bool {
+		hit := false
+		allInstrsRaw(fn, func(in ssa.Instruction) {
+			if ci, ok := in.(ssa.CallInstruction); ok {
+				switch calleeName(ci) {
+				case "(*github.com/gorilla/websocket.Conn).WriteMessage", "(*github.com/gorilla/websocket.Conn).WriteControl":
+					hit = true
+				}
+			}
+		})
+		for _, a := range fn.AnonFuncs {
+			if writesControl(a) {
+				hit = true
+			}
+		}
+		return hit
+	}
+	defer func() {
+		if r.FPingIv == nil {
+			r.FPingIv = pingFallback
+		}
+	}()
 	for _, d := range durations {
 		for _, fn := range r.p.Funcs {
 			allInstrs(fn, func(in ssa.Instruction) {
@@ -419,7 +443,13 @@ func (r *Roles) resolveConnFields(pkg *types.Package) {
 				nm := calleeName(ci)
 				if nm == "time.After" || nm == "time.NewTicker" || nm == "time.Tick" {
 					if valueMentionsField(ci.Common().Args[0], d, 4) {
-						r.FPingIv = d
+						// the pacing of the function that writes control frames — another timer
+						// fed by a duration field (a bounded wait somewhere) is not the ping interval
+						if writesControl(outermost(fn)) {
+							r.FPingIv = d
+						} else if pingFallback == nil {
+							pingFallback = d
+						}
 					}
 				}
 				if nm == "(time.Time).Add" && len(ci.Common().Args) == 2 {
@@ -621,12 +651,21 @@ func (r *Roles) resolveFunctions() {
 	}
 	if r.IDisp != nil {
 		iface := r.IDisp.Underlying().(*types.Interface)
+		// the dispatch method: the one with the longest parameter list (the interface may also carry
+		// small query methods)
+		var dm *types.Func
+		for i := 0; i < iface.NumMethods(); i++ {
+			m := iface.Method(i)
+			if dm == nil || m.Type().(*types.Signature).Params().Len() > dm.Type().(*types.Signature).Params().Len() {
+				dm = m
+			}
+		}
 		var cands []*ssa.Function
 		for _, fn := range p.Funcs {
-			if fn.Signature.Recv() == nil || fn.Parent() != nil || iface.NumMethods() != 1 {
+			if fn.Signature.Recv() == nil || fn.Parent() != nil || dm == nil || dm.Type().(*types.Signature).Params().Len() < 3 {
 				continue
 			}
-			if fn.Name() != iface.Method(0).Name() {
+			if fn.Name() != dm.Name() {
 				continue
 			}
 			if types.Implements(fn.Signature.Recv().Type(), iface) {
@@ -637,7 +676,7 @@ func (r *Roles) resolveFunctions() {
 			r.FnDisp = f
 		}
 		// T_errfn / T_req from the interface method's parameters
-		sig := iface.Method(0).Type().(*types.Signature)
+		sig := dm.Type().(*types.Signature)
 		for i := 0; i < sig.Params().Len(); i++ {
 			if n, ok := sig.Params().At(i).Type().(*types.Named); ok && n.Obj().Pkg() == p.Root.Pkg {
 				if s, ok := n.Underlying().(*types.Signature); ok && s.Params().Len() >= 3 {
